@@ -40,6 +40,9 @@
 #ifndef SV_SOCCC
 #  define SV_SOCCC 1
 #endif
+#ifndef SV_THROWDEF
+#  define SV_THROWDEF 0
+#endif
 
 using namespace svmon;
 
@@ -47,7 +50,7 @@ typedef SV_T ElemT;
 #if SV_ALLOC == 0
 typedef std::allocator<ElemT> AllocT;
 #else
-typedef LedgerAlloc<ElemT, ACfg<SV_POCCA, SV_POCMA, SV_POCS, SV_AE, std::size_t, 0, SV_CONSTRUCT, false, SV_SOCCC> > AllocT;
+typedef LedgerAlloc<ElemT, ACfg<SV_POCCA, SV_POCMA, SV_POCS, SV_AE, std::size_t, 0, SV_CONSTRUCT, SV_THROWDEF, SV_SOCCC> > AllocT;
 #endif
 typedef HistEngine<ElemT, AllocT, SV_NA, SV_NB> Engine;
 
